@@ -310,7 +310,7 @@ func requestsMain(args []string) {
 	}
 	n := 1500
 	if thorough() {
-		n = 20000
+		n = 12000
 	}
 	if len(args) > 0 {
 		n, _ = strconv.Atoi(args[0])
